@@ -1,4 +1,5 @@
 import RlModel.Lemmas.Csv
+import RlModel.Lemmas.CsvCells
 /-!
 # C20 — CSV export followed by import reproduces the table
 
@@ -135,6 +136,44 @@ theorem table_roundtrip_partial (o : Opts) (g : o.Good) (tys : List Ty) (names :
 example : ∃ file, exportTable {} [[99, 48], [99, 49]] [[some (.i32 (-5)), some (.str [44, 34, 10])], [some (.i32 7), some (.str [78, 85, 76, 76])]] = some file ∧
     importCsv {} [.i32, .str] file = .ok [[some (.i32 (-5)), some (.str [44, 34, 10])], [some (.i32 7), some (.str [78, 85, 76, 76])]] :=
   ⟨_, rfl, by decide⟩
+
+/-! ### the table theorem with a decidable hypothesis (C19's theorems discharge `CellOk`) -/
+
+def rowGood : List Ty → List (Option DV) → Bool
+  | [], [] => true
+  | ty :: tys, c :: cs => cellGood ty c && rowGood tys cs
+  | _, _ => false
+
+theorem rowGood_rowOk : ∀ (tys : List Ty) (row : List (Option DV)), rowGood tys row = true → RowOk tys row
+  | [], [], _ => trivial
+  | [], _ :: _, h => by simp [rowGood] at h
+  | _ :: _, [], h => by simp [rowGood] at h
+  | ty :: tys, c :: cs, h => by
+    simp only [rowGood, Bool.and_eq_true] at h
+    exact ⟨cellGood_spec ty c h.1, rowGood_rowOk tys cs h.2⟩
+
+/-- TYPED TABLE THEOREM.  For every option set with delimiter ≠ quote, neither CR/LF (any ESCAPE,
+HEADER or not), every column list of at least one of {BOOLEAN, SMALLINT, INT, BIGINT, VARCHAR, BLOB,
+DATE, TIMESTAMP, INTERVAL} and every table whose cells are: non-NULL, integers in range, non-empty
+strings / blobs (any bytes), dates in chrono's range, printable timestamps (µs precision) outside
+chrono's first year, intervals with i32 fields, whole seconds and not all-zero —
+`COPY FROM (COPY TO t) = t`, same rows in the same order.  All hypotheses are decidable on the table;
+each excluded cell class has a recorded witness (NULL, '', zero interval, out-of-range date /
+timestamp, sub-second interval). -/
+theorem table_roundtrip_typed (o : Opts) (g : o.Good) (tys : List Ty) (names : List Bytes)
+    (hnames : names.length = tys.length) (hcols : 0 < tys.length) (t : Table)
+    (h : t.all (rowGood tys) = true) :
+    ∃ file, exportTable o names t = some file ∧ importCsv o tys file = .ok t :=
+  table_roundtrip_partial o g tys names hnames hcols t
+    (fun row hr => rowGood_rowOk tys row (List.all_eq_true.mp h row hr))
+
+example : ∃ file, exportTable { delim := 59, quote := 39, escape := some 92, header := true } [[97], [98], [99]]
+      [[some (.blob [0, 92, 39, 59]), some (.date 11016), some (.interval (-14) 0 1000)],
+       [some (.blob [255]), some (.date (-719529)), some (.interval 0 3 0)]] = some file ∧
+    importCsv { delim := 59, quote := 39, escape := some 92, header := true } [.blob, .date, .interval] file =
+      .ok [[some (.blob [0, 92, 39, 59]), some (.date 11016), some (.interval (-14) 0 1000)],
+           [some (.blob [255]), some (.date (-719529)), some (.interval 0 3 0)]] :=
+  table_roundtrip_typed _ ⟨by decide, by decide, by decide⟩ _ _ rfl (by decide) _ (by decide)
 
 /-! ## the FULL statement is false on the code that exists -/
 
